@@ -234,6 +234,15 @@ AIMED_SMALL = [
 ]
 
 
+# monitors only (virtual time passes inside the program): a wake-up that does not bring the awaited version makes the
+# timed pop refresh its timeout
+AIMED_BIG = [
+    (0, "A000:5,P011:1|U001:1:2,D001"),
+    (1, "A000:8,N011:1;2|U001:2:3,D001"),
+    (0, "P011:1,A000:3,P011:2|U001:1:1,U001:1:2,D001"),
+]
+
+
 def model_prog(threads):
     return "|".join(",".join(t) for t in threads)
 
@@ -275,6 +284,9 @@ def run(prop, argv, meta_focus):
         seen = set()
         for k, p in AIMED_SMALL:
             progs.append(("p%d" % len(progs), k, [t.split(",") for t in p.split("|")], True, False))
+            seen.add((k, p))
+        for k, p in AIMED_BIG:
+            progs.append(("p%d" % len(progs), k, [t.split(",") for t in p.split("|")], False, True))
             seen.add((k, p))
         n_small, n_big = (40, 70) if not thorough else (200, 500)
         for small, n in ((True, n_small), (False, n_big)):
